@@ -3,7 +3,7 @@
 (* Algorithm layer of C18: how modelx keeps IOSpecs, references and the    *)
 (* IOManager's table of shared IO objects in step.  Written to be bound to *)
 (* the code: every operator below transcribes one routine (file:line of    *)
-(* /repo/modelx given in its comment) and the public operations are        *)
+(* /repo/modelx as of commit e8315ba in its comment) and the public ops are *)
 (* compositions of them in the order the code calls them.  modelx is       *)
 (* sequential, a public call runs to completion, so one public call is one *)
 (* TLA+ action (NewSpec, Assign, DelRef, UpdateValue, AddBase, RemoveBase, *)
@@ -18,7 +18,7 @@
 (*   S.refs[m]    {[sp, n, v, d]}  own references (sp = "" : model level); *)
 (*                d = derived                                              *)
 (*   S.v2r[m]     {[v, sp, n]}     ReferenceManager._valid_to_refs         *)
-(*                (model.py:1882): value id -> registered references       *)
+(*                (model.py:1903): value id -> registered references       *)
 (*   S.mgr        <<[g, loc, v]>>  IOManager.ios (baseio.py:151) flattened *)
 (*                spec by spec, in dict order; g = io_group (model name,   *)
 (*                "" for absolute paths), loc = path                       *)
@@ -34,7 +34,7 @@ CONSTANTS Models,      \* e.g. {"M1","M2"}
           ModLocs,     \* locations for new_module
           PVals,       \* ids of pandas values
           MVals,       \* ids of module values
-          WithDelSpace,\* explore `del model.<space>` (known finding KF:C18.space-deleted)
+          WithDelSpace,\* explore `del model.<space>`
           OpenFindings, \* KF labels of findings not repaired in the code: states reached through
                         \* their situation are judged and printed but not expanded
           MaxOps,      \* history length bound
@@ -71,7 +71,7 @@ MgrDelSpec(St, e) == [St EXCEPT !.mgr = SelectSeq(@, LAMBDA x : x # e)]
 MgrCanAdd(St, m, loc) == ~\E i \in DOMAIN St.mgr : St.mgr[i].g = m /\ St.mgr[i].loc = loc
 MgrNewSpec(St, m, loc, v) == [St EXCEPT !.mgr = Append(@, [g |-> m, loc |-> loc, v |-> v])]
 
-\* specs of a model = first spec of every registered value, model.py:1906-1913
+\* specs of a model = first spec of every registered value, model.py:1927-1934
 SpecsOf(St, m) ==
     {[v |-> v, loc |-> GetSpec(St, m, v).loc] :
         v \in {t.v : t \in {t \in St.v2r[m] : HasSpec(St, m, t.v)}}}
@@ -89,7 +89,7 @@ Namespace(St, m, sp) ==
     ELSE CellNames \cup OwnNames(St, m, sp) \cup GlobalNames(St, m)
 
 \* effect of SpaceManager.update_subs / the propagation loops of new_ref,
-\* change_ref, del_ref (model.py:1352-1354, 1487-1545) on the one base/sub
+\* change_ref, del_ref (model.py:1354-1356, 1500-1560) on the one base/sub
 \* pair of this instance: B holds a derived copy of every reference of A
 \* that B does not define itself.  Derived references are NOT registered
 \* in _valid_to_refs (only ReferenceManager.new_ref/change_ref register,
@@ -104,9 +104,9 @@ Rederive(St, m, refs) ==
 
 Result(St, res) == [S |-> St, res |-> res]
 
-\* ReferenceManager.new_ref (model.py, class ReferenceManager)
-\*  model level: ModelImpl.new_ref, no check at all;
-\*  space: SpaceManager.new_ref: only a cells or a space of that name in the
+\* ReferenceManager.new_ref, model.py:1936-1948
+\*  model level: ModelImpl.new_ref (963-968), no check at all;
+\*  space: SpaceManager.new_ref (1500-1527): only a cells or a space of that name in the
 \*  space or a sub space is a conflict (none in this vocabulary: the cells is
 \*  "c", never used as a reference name here); a sub space that defines the
 \*  name keeps its own reference, the others get a derived copy;
@@ -116,9 +116,9 @@ RmNewRef(St, m, sp, n, v) ==
             !.refs[m] = Rederive(St, m, @ \cup {[sp |-> sp, n |-> n, v |-> v, d |-> FALSE]}),
             !.v2r[m]  = @ \cup {[v |-> v, sp |-> sp, n |-> n]}], "ok")
 
-\* ReferenceManager.change_ref (model.py, class ReferenceManager)
+\* ReferenceManager.change_ref, model.py:1990-2017
 \*  - remember the previous reference and its value;
-\*  - replace it (ModelImpl.change_ref = del + new; SpaceManager.change_ref:
+\*  - replace it (ModelImpl.change_ref = del + new, 959-961; SpaceManager.change_ref, 1529-1560:
 \*    the reference becomes a defined one, derived copies follow);
 \*  - register the NEW reference first (so that re-assigning the current
 \*    value keeps the registration non-empty);
@@ -140,23 +140,23 @@ RmChangeRef(St, m, sp, n, v) ==
          Result(IF HasSpec(S2, m, prev.v) THEN MgrDelSpec(S2, GetSpec(S2, m, prev.v)) ELSE S2, "ok")
     ELSE Result([S1 EXCEPT !.v2r[m] = IF prev.d THEN @ ELSE @ \ {me}], "ok")
 
-\* set_attr: UserSpaceImpl space.py:1742-1768, ModelImpl model.py:978-984
+\* set_attr: UserSpaceImpl space.py:1750-1776, ModelImpl model.py:980-986
 \* (reached from `parent.name = value`, parent.py:93-104)
 SetAttr(St, m, sp, n, v) ==
     IF sp = ""
-    THEN IF n \in St.sp[m] THEN Result(St, "rejected")                   \* KeyError, 979-980
+    THEN IF n \in St.sp[m] THEN Result(St, "rejected")                   \* KeyError, 981-982
          ELSE IF n \in GlobalNames(St, m) THEN RmChangeRef(St, m, sp, n, v)
          ELSE RmNewRef(St, m, sp, n, v)                                   \* no name check
-    ELSE IF n \in InvalidNames THEN Result(St, "rejected")               \* ValueError, 1748-1749
-    ELSE IF n \in OwnNames(St, m, sp) THEN RmChangeRef(St, m, sp, n, v)  \* 1753-1754
+    ELSE IF n \in InvalidNames THEN Result(St, "rejected")               \* ValueError, 1756-1757
+    ELSE IF n \in OwnNames(St, m, sp) THEN RmChangeRef(St, m, sp, n, v)  \* 1761-1762
     ELSE IF n \in CellNames THEN Result(St, "rejected")                  \* (a cells: not in the vocabulary of Assign)
-    ELSE RmNewRef(St, m, sp, n, v)                                        \* 1755-1756, 1768
+    ELSE RmNewRef(St, m, sp, n, v)                                        \* 1763-1764, 1776
 
-\* ReferenceManager.del_ref, model.py:1929-1954, reached from del_attr
-\* (space.py:1770-1808, model.py:986-993)
-\*  1936-1941 delete the reference (a derived one is re-derived at once by
+\* ReferenceManager.del_ref, model.py:1950-1975, reached from del_attr
+\* (space.py:1778-1816, model.py:988-995)
+\*  1957-1962 delete the reference (a derived one is re-derived at once by
 \*            update_subs, so nothing changes for it);
-\*  1943-1954 un-register: `assert refs` / `refs.remove(ref)` raise when the
+\*  1964-1975 un-register: `assert refs` / `refs.remove(ref)` raise when the
 \*            reference was never registered (a derived one, or one whose
 \*            registration was lost) -- AFTER the deletion;
 \*            last registered reference gone -> delete the value's spec.
@@ -176,14 +176,14 @@ RmDelRef(St, m, sp, n) ==
 -----------------------------------------------------------------------------
 (* Public operations                                                       *)
 
-\* EditableParentImpl.new_pandas / new_module, parent.py:919-957
-\*  922/941  _check_ioref_name (889-893): a name of the parent's namespace
+\* EditableParentImpl.new_pandas / new_module, parent.py:919-961
+\*  922/945  _check_ioref_name (889-893): a name of the parent's namespace
 \*           that is not a reference (cells, child space) -> KeyError before
 \*           anything is created;
-\*  923/943  IOManager.new_spec (may raise: location already claimed);
-\*           new_pandas only: a value that is referenced in the model and already
+\*  923-926  new_pandas only: a value that is referenced in the model and already
 \*           has a spec -> ValueError before anything is created;
-\*  930-934  set_attr; on ValueError/KeyError/AttributeError the spec is
+\*  927/947  IOManager.new_spec (may raise: location already claimed);
+\*  934-938  set_attr; on ValueError/KeyError/AttributeError the spec is
 \*           deleted again and KeyError raised.
 NewSpecStep(St, op) ==
     LET m == op.m  sp == op.sp  n == op.n IN
@@ -199,18 +199,18 @@ AssignStep(St, op) == SetAttr(St, op.m, op.sp, op.n, op.v)
 
 DelRefStep(St, op) ==
     IF op.sp # "" /\ op.n \notin OwnNames(St, op.m, op.sp)
-    THEN Result(St, "rejected")      \* not an own reference: del_ref raises (space.py:1797-1808)
+    THEN Result(St, "rejected")      \* not an own reference: del_ref raises (space.py:1801-1816)
     ELSE RmDelRef(St, op.m, op.sp, op.n)
 
-\* ReferenceManager.update_value, model.py:1988-2015 (Model.update_pandas /
+\* ReferenceManager.update_value, model.py:2024-2056 (Model.update_pandas /
 \* update_module, model.py:147-231)
-\*  1991-1995 value not registered -> ValueError;
-\*            old has a spec and new (another value) has its own spec -> ValueError;
-\*  2000-2002 the spec (if any) takes the new value in place
+\*  2026-2031 value not registered -> ValueError;
+\*  2036-2038 old has a spec and new (another value) has its own spec -> ValueError;
+\*  2040-2042 the spec (if any) takes the new value in place
 \*            (IOManager.update_spec_value, baseio.py:245-252);
-\*  2004-2012 every registered reference is re-bound at impl level
+\*  2044-2052 every registered reference is re-bound at impl level
 \*            (derived copies follow);
-\*  2014-2016 _valid_to_refs: the old entry is popped and the moved references
+\*  2054-2056 _valid_to_refs: the old entry is popped and the moved references
 \*            are ADDED to the entry of the new value.
 UpdateStep(St, op) ==
     LET m == op.m
@@ -241,8 +241,9 @@ RemoveBaseStep(St, op) ==
     LET S1 == [St EXCEPT !.base[op.m] = FALSE] IN
     Result([S1 EXCEPT !.refs[op.m] = Rederive(S1, op.m, @)], "ok")
 
-\* `del model.A`: ModelImpl.del_attr -> SpaceUpdater.del_defined_space; the
-\* references of the space go with it and ReferenceManager.del_space_refs
+\* `del model.A`: ModelImpl.del_attr (model.py:988-991) -> SpaceUpdater.
+\* del_defined_space (1810-); the references of the space go with it and
+\* ReferenceManager.del_space_refs (1977-1988)
 \* un-registers the defined ones; a value whose last registration goes loses
 \* its spec (first found)
 DelSpaceStep(St, op) ==
@@ -257,7 +258,7 @@ DelSpaceStep(St, op) ==
     Result([S3 EXCEPT !.mgr = SelectSeq(@, LAMBDA e : e \notin gone)], "ok")
 
 \* System.close_model, system.py:657-661 -> ReferenceManager.del_all_spec
-\* (model.py:1983-1986): the specs reachable through _valid_to_refs
+\* (model.py:2019-2022): the specs reachable through _valid_to_refs
 CloseStep(St, op) ==
     LET m == op.m
         gone == {GetSpec(St, m, x.v) : x \in SpecsOf(St, m)} IN
